@@ -25,7 +25,9 @@ Mailboxes == {"A", "B"}
 FlagSets == {"f0", "f1"}          \* f0 = (\Seen), f1 = (\Seen \Deleted custom)  (concrete lists in the harness)
 None == "none"
 
-Kinds == {"NOOP", "LOGIN", "SELECT", "UNSELECT", "STATUS", "LIST", "SEARCH", "FETCH", "EXPUNGE", "LOGOUT"}
+\* ESEARCH: a UID SEARCH with RETURN options; its data response carries the tag of the command
+\* (RFC 4731 search correlator), so any number may be in flight and be answered in any order
+Kinds == {"NOOP", "LOGIN", "SELECT", "UNSELECT", "STATUS", "LIST", "SEARCH", "ESEARCH", "FETCH", "EXPUNGE", "LOGOUT"}
 HasArg(k) == k \in {"SELECT", "STATUS"}
 
 VARIABLES cstate,   \* "notauth" | "auth" | "selected" | "logout"
@@ -60,6 +62,10 @@ Unambiguous(k, a) ==
   \* them in the order sent (see Tagged): their data then belongs to the oldest one
   /\ k \in {"FETCH", "SEARCH", "EXPUNGE", "LIST"} => Cardinality(PendingOf(k)) <= 1
   /\ k = "STATUS" => \A i \in PendingOf("STATUS") : cmds[i].arg # a
+  \* an untagged SEARCH response carries no correlator: this client hands it to the oldest pending search of
+  \* either form, so the two forms are not mixed in one pipeline (treated as ambiguous, not as a defect)
+  /\ k = "SEARCH" => PendingOf("ESEARCH") = {}
+  /\ k = "ESEARCH" => PendingOf("SEARCH") = {}
   \* state-changing commands are not pipelined with commands that depend on the state
   /\ k \in {"SELECT", "UNSELECT", "LOGOUT", "LOGIN"} => PendingIds = {}
   /\ \A i \in PendingIds : cmds[i].kind \notin {"SELECT", "UNSELECT", "LOGOUT", "LOGIN"}
@@ -148,6 +154,12 @@ Search(n) ==
   /\ cmds[Target("SEARCH")].acc.items = <<>> /\ AddItem(Target("SEARCH"), <<"search", n, None>>)
   /\ Quiet /\ UNCHANGED <<cstate, mbox, alive>>
 
+\* * ESEARCH (TAG "<tag of i>") UID COUNT n : routed by the correlator, not by position
+Esearch(i, n) ==
+  /\ alive /\ i \in PendingOf("ESEARCH") /\ n \in 1..MaxNum
+  /\ cmds[i].acc.items = <<>> /\ AddItem(i, <<"esearch", n, None>>)
+  /\ Quiet /\ UNCHANGED <<cstate, mbox, alive>>
+
 \* * OK [CLOSED] : the previous mailbox is closed while a SELECT is in progress
 Closed ==
   /\ alive /\ cstate = "selected" /\ SelPending
@@ -205,6 +217,7 @@ Next ==
   \/ \E n \in 1..MaxNum, f \in FlagSets : Fetch(n, f)
   \/ \E m \in Mailboxes, n \in 0..MaxNum : Status(m, n)
   \/ \E m \in Mailboxes : List(m)
+  \/ \E i \in 1..MaxCmds, n \in 1..MaxNum : Esearch(i, n)
   \/ Closed
   \/ \E i \in 1..MaxCmds, st \in {"OK", "NO", "BAD"} : Tagged(i, st)
   \/ Bye
@@ -237,7 +250,8 @@ DataToRightCommand ==
                \/ (t = "fetch" /\ cmds[i].kind = "FETCH")
                \/ (t = "status" /\ cmds[i].kind = "STATUS" /\ cmds'[i].acc.items[x][3] = cmds[i].arg)
                \/ (t = "list" /\ cmds[i].kind = "LIST")
-               \/ (t = "search" /\ cmds[i].kind = "SEARCH")]_vars
+               \/ (t = "search" /\ cmds[i].kind = "SEARCH")
+               \/ (t = "esearch" /\ cmds[i].kind = "ESEARCH")]_vars
 
 StateDiagram ==
   [][cstate' # cstate => <<cstate, cstate'>> \in
